@@ -80,6 +80,33 @@ def gen(tier, rng):
                     cases.append(rz.resize_case(pt, sw, sh, dw, dh, alg=alg, flt=flt, m=m, alpha=False, cpu=cpu,
                                                 src_c={"g": "data", "v": content}, log=("dst",), chk=chk, g=10000 + g,
                                                 echo={"skip": [axis, j]}))
+    # the complete pass-planning table: per axis {integer, fractional} origin x {equal, different} extent -- a pass is needed
+    # unless the origin is an integer and the extent unchanged; the logged plan must agree (pipeline) for all 16 combinations
+    Q = 4
+    def axis(kind, n_src, n_dst):
+        """(origin, extent) in quarter pixels for an axis of n_src source pixels resampled to n_dst"""
+        if kind == "int_eq":
+            return (Q, Q * n_dst)
+        if kind == "frac_eq":
+            return (Q + 2, Q * n_dst)
+        if kind == "int_ne":
+            return (Q, Q * n_dst + Q)
+        return (Q + 1, Q * n_dst + 3)
+    kinds = ("int_eq", "frac_eq", "int_ne", "frac_ne")
+    for pt in rz.ALL_PT:
+        for hx in kinds:
+            for vy in kinds:
+                for (alg, flt, m) in (("conv", "Bilinear", 1), ("interp", "CatmullRom", 1), ("ss", "Box", 1)):
+                    g += 1
+                    if tier == "quick" and rz.pick(g, 301, [0, 1]):
+                        continue
+                    dw, dh = 5, 6
+                    sw, sh = dw + 4, dh + 4
+                    (l, w_) = axis(hx, sw, dw)
+                    (t, h_) = axis(vy, sh, dh)
+                    cases.append(rz.resize_case(pt, sw, sh, dw, dh, alg=alg, flt=flt, m=m, alpha=rz.pick(g, 302, [True, False]), box=(l, t, w_, h_), Q=Q,
+                                                cpu=rz.pick(g, 303, rz.CPUS), src_c={"g": "data", "v": tags(pt, sw, sh, rng)}, log=("src", "dst"),
+                                                chk=("pipeline", "ret_ok", "outside") + (("copy",) if hx == "int_eq" and vy == "int_eq" else ())))
     # SuperSampling whose intermediate image has exactly the destination's size (factor > 1.2, m = 1)
     for pt in rz.ALL_PT:
         for (sw, sh, dw, dh) in [(8, 6, 4, 3), (9, 6, 3, 2), (10, 10, 5, 5), (6, 2, 3, 1), (4, 4, 2, 2)]:
